@@ -45,11 +45,11 @@ native('C01.tracepos', ['C01', 'C09'], 'bounded', '9 x 9 boundary grid of u32 op
 native('C21.gate', ['C21'], 'bounded', '3 x 3 x 3 x 3 grid of versions around min_supported_version() (81 versions, all triples for transitivity)',
        'aquavm-air', 'air/src/preparation_step/preparation.rs', 'version_gate.rs', 'verif_native_version::gate_rejects_exactly_older_versions',
        what='the real semver::Version order is a strict total lexicographic order on the grid (the axiom of unit version) and the real check_version_compatibility rejects exactly versions < min with the right payload; empty data passes')
-native('C01.collect_cids', ['C01'], 'proof', None, 'air-interpreter-data',
+native('C01.collect_cids', ['C01', 'C03', 'C14'], 'proof', None, 'air-interpreter-data',
        'crates/air-lib/interpreter-data/src/interpreter_data/verification.rs', 'collect_cids.rs',
        'verif_native_collect_cids::data_verifier_new_is_total_on_dangling_trace_references',
        what='finite: each of the four store lookups of collect_peers_cids_from_trace (service result, its tetraplet, canon result, its tetraplet) '
-            'with the referenced CID present or missing (16 combinations): DataVerifier::new returns, never panics (F5)')
+            'with the referenced CID present or missing (16 combinations): DataVerifier::new returns, never panics (F5), and -- with the owner\'s key in the signature store -- fails with CidNotFound naming exactly the first missing CID, Ok only when all four are present (a dangling trace reference is never skipped)')
 native('C01.raw_value', ['C01'], 'bounded', 'raw texts of length <= 2 over the alphabet {1 " [ ] x space} (43 texts)', 'air-interpreter-data',
        'crates/air-lib/interpreter-data/src/raw_value.rs', 'raw_value.rs', 'verif_native_raw_value::get_value_is_total',
        what='RawValue::get_value does not panic on a stored value that is not JSON (F4: it does -- known finding)')
